@@ -436,6 +436,10 @@ def spec_match_any(path, patarg):
 # ---------------------------------------------------------------------------
 def gen_leaf(rng, collide=True):
     k = rng.random()
+    if k < 0.04:
+        lits = [x for x in core.source_literals() if len(x) > 2]
+        if lits:
+            return rng.choice(lits)
     if k < 0.40:
         s = rng.choice(STR_LEAVES)
         if not collide and s in ("1", "2", "1.0", "None", "True", "[1]", "", "10"):
@@ -662,14 +666,16 @@ def gen_case(rng, depth, mode=None, opts=False, collide=True):
 
 
 # --- keyed record lists (C08) ------------------------------------------------
-def gen_record_payload(rng, depth, nested_keyed):
+def gen_record_payload(rng, depth, nested_keyed, inner=False):
     out = {}
-    for f in rng.sample(["v", "w", "q", "name"], rng.choice([1, 2, 3])):
+    # a dict *below* a record may carry leaves named like the fields of the composite key
+    names = ["v", "w", "q", "name", "id", "k", "f"] if inner else ["v", "w", "q", "name"]
+    for f in rng.sample(names, rng.choice([1, 2, 3])):
         k = rng.random()
         if k < 0.6 or depth <= 0:
             out[f] = rng.choice(["a", "b", "A", 1, 2, 2.5, True, None, "x y"])
         elif k < 0.85:
-            out[f] = gen_record_payload(rng, depth - 1, False)
+            out[f] = gen_record_payload(rng, depth - 1, False, inner=True)
         else:
             out[f] = [rng.choice(["a", "b", 1, 2, 3.5, None]) for _ in range(rng.choice([0, 1, 2, 3]))]
     if nested_keyed and rng.random() < 0.5:
